@@ -398,7 +398,8 @@ def rand_props(rng, k):
     out = []
     for nm in names:
         dtype = G.PROP_DTYPES[int(rng.integers(len(G.PROP_DTYPES)))]
-        pk = int(rng.integers(2, 5)) if rng.random() < 0.35 else 0
+        # several values per point: (n, k) incl. k = 1, and per-point rows / columns (n, 1, 3), (n, 2, 1)
+        pk = [1, 2, 3, 4, [1, 3], [2, 1], 1][int(rng.integers(7))] if rng.random() < 0.4 else 0
         out.append((nm, dtype, pk))
     return out
 
